@@ -33,12 +33,17 @@ pub fn hex(bytes: &[u8]) -> String {
 }
 
 pub fn unhex(s: &str) -> Vec<u8> {
+    try_unhex(s).expect("bad hex in request")
+}
+
+pub fn try_unhex(s: &str) -> Option<Vec<u8>> {
     if s == "-" {
-        return vec![];
+        return Some(vec![]);
     }
-    (0..s.len() / 2)
-        .map(|i| u8::from_str_radix(&s[2 * i..2 * i + 2], 16).unwrap())
-        .collect()
+    if s.len() % 2 != 0 || !s.is_ascii() {
+        return None;
+    }
+    (0..s.len() / 2).map(|i| u8::from_str_radix(&s[2 * i..2 * i + 2], 16).ok()).collect()
 }
 
 pub fn words_to_bytes(ws: &[u32]) -> Vec<u8> {
